@@ -471,6 +471,11 @@ pub mod uniremote {
             &mut self,
             replay: &mut Vec<u8>,
         ) -> Result<Frame<'a>, ProtoReadError> {
+            #[cfg(feature = "verif-hooks")]
+            if !replay.is_empty() {
+                crate::verif::RESUMED_FRAME_READS.fetch_add(1, std::sync::atomic::Ordering::Relaxed);
+            }
+
             let mut reader = ReplayReader {
                 stream: &mut self.stream,
                 replay,
@@ -597,6 +602,11 @@ pub mod session {
             &mut self,
             replay: &mut Vec<u8>,
         ) -> Result<Frame<'a>, ProtoReadError> {
+            #[cfg(feature = "verif-hooks")]
+            if !replay.is_empty() {
+                crate::verif::RESUMED_FRAME_READS.fetch_add(1, std::sync::atomic::Ordering::Relaxed);
+            }
+
             let mut reader = ReplayReader {
                 stream: &mut self.stream.1,
                 replay,
